@@ -244,7 +244,7 @@ pub fn state_for(r: &mut Rng, page: Page, op: u8) -> St {
     s
 }
 
-fn state_for0(r: &mut Rng, page: Page, op: u8) -> St {
+pub fn state_for0(r: &mut Rng, page: Page, op: u8) -> St {
     let mut s = rand_state(r);
     if r.below(5) == 0 {
         relate_regs(r, &mut s);
